@@ -15,6 +15,15 @@ def LogOK : Pos → List Ev → Prop
   | _, [] => True
   | p, e :: es => e.ok p ∧ LogOK (e.step p) es
 
+/-- no stream-header event -/
+def NoWindow (log : List Ev) : Prop := ∀ e ∈ log, ∀ b, e ≠ .window b
+
+theorem noWindow_append {a b : List Ev} (h1 : NoWindow a) (h2 : NoWindow b) : NoWindow (a ++ b) := by
+  intro e he
+  rcases List.mem_append.mp he with h | h
+  · exact h1 e h
+  · exact h2 e h
+
 def logBits (o : Oracle) (log : List Ev) : List Bool := log.flatMap (Ev.bits o)
 def logReqs (log : List Ev) : List Req := log.filterMap Ev.req
 def logUsed (log : List Ev) : Nat := (log.map Ev.used).sum
@@ -45,12 +54,14 @@ structure StepsFacts (o : Oracle) (d : Bytes) (c c' : St × Io) (log : List Ev) 
   reqs : c'.2.reqs = c.2.reqs ++ logReqs log
   input : c'.2.input = c.2.input.drop (logUsed log)
   used : logUsed log ≤ c.2.input.length
+  initd : c.1.isInitialized = true → c'.1.isInitialized = true ∧ NoWindow log
 
 theorem steps_facts {o : Oracle} {op : Nat} {c c' : St × Io} {log : List Ev} (h : Steps o op c log c')
     (hF : FrameInv c.1) (d : Bytes) : StepsFacts o d c c' log := by
   induction h with
   | nil c =>
-    exact ⟨hF, by simp [logBits], rfl, trivial, by simp [logReqs], by simp [logUsed], by simp [logUsed]⟩
+    exact ⟨hF, by simp [logBits], rfl, trivial, by simp [logReqs], by simp [logUsed], by simp [logUsed],
+      fun hi => ⟨hi, fun _ he => by cases he⟩⟩
   | @cons c c1 c2 e es hs _ ih =>
     obtain ⟨s, io⟩ := c
     obtain ⟨s1, io1⟩ := c1
@@ -58,7 +69,19 @@ theorem steps_facts {o : Oracle} {op : Nat} {c c' : St × Io} {log : List Ev} (h
     have hb := step_emitted hF hs d
     obtain ⟨p1, p2, p3, p4, p5⟩ := step_pos hs
     have r := ih hF1
-    refine ⟨r.frame, ?_, ?_, ⟨p2, ?_⟩, ?_, ?_, ?_⟩
+    obtain ⟨i1, i2⟩ := step_initialized hs
+    refine ⟨r.frame, ?_, ?_, ⟨p2, ?_⟩, ?_, ?_, ?_, ?_⟩
+    rotate_right 1
+    · intro hi
+      obtain ⟨j1, j2⟩ := r.initd i1
+      refine ⟨j1, ?_⟩
+      intro e' he' b hwb
+      rcases List.mem_cons.mp he' with h1 | h1
+      · subst h1
+        have := i2 b hwb
+        have hi' : s.isInitialized = true := hi
+        rw [hi'] at this; cases this
+      · exact j2 e' h1 b hwb
     · rw [r.bits, hb]
       simp [logBits, List.append_assoc]
     · rw [r.pos]
